@@ -416,3 +416,11 @@ fn preserve_cutoff<T: Value, O: Value>(input: &Incr<T>, output: &Incr<O>) {
         }
     })
 }
+
+#[cfg(cormacrelf_incremental_rs_verif)]
+impl<T> Incr<T> {
+    /// Verification-only: the node's id, as printed (`#<id>`) by `IncrState::verif_dump`.
+    pub fn verif_id(&self) -> usize {
+        self.node.id().0
+    }
+}
